@@ -3,8 +3,6 @@
 package cl
 
 import (
-	"math/big"
-
 	"github.com/ohler55/slip"
 )
 
@@ -45,50 +43,15 @@ type Lt struct {
 // Call the function with the arguments provided.
 func (f *Lt) Call(s *slip.Scope, args slip.List, depth int) slip.Object {
 	slip.CheckArgCount(s, depth, f, args, 1, -1)
-	if len(args) == 1 {
-		if _, ok := args[0].(slip.Real); !ok {
-			slip.TypePanic(s, depth, "numbers", args[0], "real")
-		}
-		return slip.True
-	}
-	var arg slip.Object
-	pos := 0
-	target := args[pos]
+	target := args[0]
 	if _, ok := target.(slip.Real); !ok {
 		slip.TypePanic(s, depth, "numbers", target, "real")
 	}
-	pos++
-	for ; pos < len(args); pos++ {
-		arg, target = slip.NormalizeNumber(args[pos], target)
-		switch ta := arg.(type) {
-		case slip.Fixnum:
-			if target.(slip.Fixnum) >= ta {
-				return nil
-			}
-		case slip.SingleFloat:
-			if target.(slip.SingleFloat) >= ta {
-				return nil
-			}
-		case slip.DoubleFloat:
-			if target.(slip.DoubleFloat) >= ta {
-				return nil
-			}
-		case *slip.LongFloat:
-			if (*big.Float)(target.(*slip.LongFloat)).Cmp((*big.Float)(ta)) >= 0 {
-				return nil
-			}
-		case *slip.Bignum:
-			if (*big.Int)(target.(*slip.Bignum)).Cmp((*big.Int)(ta)) >= 0 {
-				return nil
-			}
-		case *slip.Ratio:
-			if (*big.Rat)(target.(*slip.Ratio)).Cmp((*big.Rat)(ta)) >= 0 {
-				return nil
-			}
-		case slip.Complex:
-			slip.TypePanic(s, depth, "numbers", arg, "real")
+	for _, arg := range args[1:] {
+		if cmp := compareReals(target, arg); cmp != -1 {
+			return nil
 		}
-		target = args[pos]
+		target = arg
 	}
 	return slip.True
 }
